@@ -62,8 +62,10 @@ def obligations(tier: str):
         cfg.setdefault("ops", [])
         obs.append(Ob("readonly", cfg, name=name, timeout=timeout * (8 if T else 1), path_timeout=60))
 
-    for dec in ("grow", "full", "pi") + (("pt",) if T else ()):
-        add(f"tree_{dec}_f5ctx_create", fixture="f5ctx", rep="tree", decider=dec, max_depth=2, fuel=200 if dec != "pt" else 12)
+    for dec in ("grow", "full", "pi", "pt"):
+        add(f"tree_{dec}_f5ctx_create", fixture="f5ctx", rep="tree", decider=dec, max_depth=2, fuel=200 if dec != "pt" else (12 if T else 9))
+    add("tree_pt_f5ctx_mutate", fixture="f5ctx", rep="tree", decider="pt", ops=["mutate"], fuel=9)
+    add("ge_pt_f5ctx_create", fixture="f5ctx", rep="ge", decider="pt", gene_length=4, fuel=30, gene_fuel=12)
     add("tree_grow_f5ctx_create_x2", fixture="f5ctx", rep="tree", decider="grow", max_depth=2, rounds=2, timeout=200)
     add("tree_grow_f5ctx_mutate", fixture="f5ctx", rep="tree", decider="grow", max_depth=2, ops=["mutate"], timeout=200)
     add("tree_grow_f5ctx_crossover", fixture="f5ctx", rep="tree", decider="grow", max_depth=2, ops=["crossover"], timeout=200) if T else None
